@@ -114,7 +114,7 @@ def record(ck, tier, seed):
                                  "states": v["states"], "accepted": v["accepted"]})
         if not v["accepted"]:
             at = v["reject_at"]
-            keep = os.path.join(vf.ROOT, "replay", "C16-trace-%d-%d.ndjson" % (seed, ci))
+            keep = os.path.join(vf.out_dir(), "replay", "C16-trace-%d-%d.ndjson" % (seed, ci))
             os.makedirs(os.path.dirname(keep), exist_ok=True)
             vf.write_ndjson(keep, lines[:at] if at else lines)
             bad = lines[at - 1] if at and at <= len(lines) else None
@@ -146,7 +146,7 @@ def burst(ck, tier, seed):
     if not v["accepted"]:
         at = v["reject_at"]
         bad = lines[at - 1] if at and at <= len(lines) else None
-        keep = os.path.join(vf.ROOT, "replay", "C16-burst-%d.ndjson" % seed)
+        keep = os.path.join(vf.out_dir(), "replay", "C16-burst-%d.ndjson" % seed)
         os.makedirs(os.path.dirname(keep), exist_ok=True)
         vf.write_ndjson(keep, lines[:at] if at else lines)
         ck.mismatch("burst/%s" % (bad["ev"] if bad else v["violation"]),
